@@ -192,8 +192,14 @@ def c05_job(chk, rng, i):
     scripts.driver_walk_scs(case, rng)
     # a start condition chosen before the very first call of yylex() (and, in the second
     # session of C13, before the first call after yylex_destroy) must be honoured
+    feats0 = []
     if nsc > 1 and rng.chance(60):
         case["driver"]["init"] = [("open", 0), ("begin", rng.below(nsc))]
+    if i % 3 == 1:
+        # the stack is used (and the current condition read) before yylex() has ever run
+        case["driver"]["init"] = list(case["driver"].get("init", [("open", 0)])) + [
+            ("top",), ("push", rng.below(nsc)), ("top",)]
+        feats0.append("stack_used_before_first_yylex")
     # driver also uses the stack between calls
     if rng.chance(50):
         extra = [[("push", rng.below(nsc))], [("top",)], [("pop",)]]
@@ -220,7 +226,7 @@ def c05_job(chk, rng, i):
     tb = rotate(i // 2, ["", "-CFe", "-Cem", "-Cfe", "-C", "-CF", "-Ca", "-Cf"])
     fl = flavour4(i, tb)
     cfg = {"flavour": fl, "flexargs": lib.tables_args(tb, 8)}
-    feats = (["scs>40"] if big else []) + ["tables:" + (tb or "default")]
+    feats = (["scs>40"] if big else []) + ["tables:" + (tb or "default")] + feats0
     return {"case": case, "configs": [cfg], "inputs": inputs, "features": feats}
 
 
